@@ -37,24 +37,24 @@ SIGN_REF = {"is_top": ("t_dy", "-"), "is_bottom": ("t_dy", "+"), "is_left": ("t_
 
 
 def run(prog, chk):
-    X.check_readers(prog, chk)
-    X.text_bypass(prog, chk)
+    chk.rule(X.check_readers, prog, chk)
+    chk.rule(X.text_bypass, prog, chk)
     chk.obs = [o for o in chk.obs if o["key"] != "A11.unescape-fallback/unescaped_text:raw-on-error" or True]
-    carriers(prog, chk)
-    attribute_hygiene(prog, chk)
-    wiring(prog, chk)
-    tspans(prog, chk)
-    text_not_altered(prog, chk)
+    chk.rule(carriers, prog, chk)
+    chk.rule(attribute_hygiene, prog, chk)
+    chk.rule(wiring, prog, chk)
+    chk.rule(tspans, prog, chk)
+    chk.rule(text_not_altered, prog, chk)
     from props import C04, C20
-    C04.filter_closed(prog, chk)  # the text-* presentation attributes that are *moved* to the text element are standard SVG: the pass-through keeps them
-    C20.evaluated_classes_are_split(prog, chk)  # d-text-outside / -inside / -vertical / -pre are looked up as whole classes, also when they come from a variable
+    chk.rule(C04.filter_closed, prog, chk)  # the text-* presentation attributes that are *moved* to the text element are standard SVG: the pass-through keeps them
+    chk.rule(C20.evaluated_classes_are_split, prog, chk)  # d-text-outside / -inside / -vertical / -pre are looked up as whole classes, also when they come from a variable
     from props import C03
-    C03.graphics_vocabulary(prog, chk)  # which elements take their character content as shape text
+    chk.rule(C03.graphics_vocabulary, prog, chk)  # which elements take their character content as shape text
     from props import geomalg
-    geomalg.check_sites(prog, chk, "C19")
-    geomalg.check(prog, chk, "C19", floor=28)
+    chk.rule(geomalg.check_sites, prog, chk, "C19")
+    chk.rule(geomalg.check, prog, chk, "C19", floor=28)
     from props import strops
-    strops.check_for(prog, chk, "C19")  # A14.str-ops: how this property's strings are cut up is a reviewed, frozen inventory
+    chk.rule(strops.check_for, prog, chk, "C19")  # A14.str-ops: how this property's strings are cut up is a reviewed, frozen inventory
 
 
 def carriers(prog, chk):
